@@ -1,6 +1,6 @@
 (* One entry point for the extracted runner: (property code, flat words) -> flat result. *)
 From Coq Require Import List ZArith Bool.
-From PMH Require Import Lib.ListArr Lib.Cases Lib.Wire Model.ProbMinHash Model.ProbMinHashRun.
+From PMH Require Import Lib.ListArr Lib.Cases Lib.Wire Model.ProbMinHash Model.ProbMinHashRun Model.SketchRun.
 Import ListNotations.
 Open Scope Z_scope.
 
@@ -38,4 +38,8 @@ Definition run_generic (code : Z) (ws : list Z) : list Z :=
     | Some (c, []) => monitor_pmh (strip2 c)
     | _ => [-1]
     end
+  else if code =? 5 then run_ss ws
+  else if code =? 6 then run_smh ws
+  else if code =? 7 then run_smh2 ws
+  else if code =? 8 then run_dens ws
   else [-2].
